@@ -170,20 +170,62 @@ func init() {
 				n := calleeName(&c.Call)
 				return strings.HasSuffix(n, "peers.Hub).SendTo") || strings.HasSuffix(n, "peers.Hub).BroadcastExcept") || strings.HasSuffix(n, "peers.Hub).Broadcast")
 			}
+			var out []Finding
+			discharged := 0
 			ok, inc, wit := checkMustPass(ld.Prog, repoModule+"/cmd/thruserv.handleWebSocket", isUnmarshalEnv, isFromStore, isRoute, ev, "cfg:handleWebSocket from-overwrite")
-			ev["extra_obligations"] = 1
 			if ok {
-				ev["extra_discharged"] = 1
-				return nil
-			}
-			if inc != "" {
+				discharged++
+			} else if inc != "" {
 				fmt.Printf("INCONCLUSIVE property=C10 obligation=C10.from %s\n", inc)
-				return nil
+			} else {
+				w := wit
+				out = append(out, Finding{Obligation: "C10.from", Kind: "cfg", Msg: "an envelope can be routed without its From field being overwritten by the connection's peer id", Replay: func(dir string) (bool, string) {
+					os.WriteFile(dir+"/witness.txt", []byte(w+"\n"), 0o644)
+					return true, w
+				}})
 			}
-			return []Finding{{Obligation: "C10.from", Kind: "cfg", Msg: "an envelope can be routed without its From field being overwritten by the connection's peer id", Replay: func(dir string) (bool, string) {
-				os.WriteFile(dir+"/witness.txt", []byte(wit+"\n"), 0o644)
-				return true, wit
-			}}}
+			// one routing call per message: between two routing calls of the read loop lies a ReadMessage (no duplicate
+			// delivery, and the peer-not-found report is not a second routing call)
+			isRead := func(ins ssa.Instruction) bool {
+				c, ok := ins.(*ssa.Call)
+				return ok && strings.HasSuffix(calleeName(&c.Call), "websocket.Conn).ReadMessage")
+			}
+			isMsgRoute := func(ins ssa.Instruction) bool {
+				c, ok := ins.(*ssa.Call)
+				if !ok {
+					return false
+				}
+				n := calleeName(&c.Call)
+				return strings.HasSuffix(n, "peers.Hub).SendTo") || strings.HasSuffix(n, "peers.Hub).BroadcastExcept")
+			}
+			ok2, inc2, wit2 := checkMustPassAfter(ld.Prog, repoModule+"/cmd/thruserv.handleWebSocket", isMsgRoute, isRead, isRoute, ev, "cfg:handleWebSocket one-route-per-message")
+			if ok2 {
+				discharged++
+			} else if inc2 != "" {
+				fmt.Printf("INCONCLUSIVE property=C10 obligation=C10.once %s\n", inc2)
+			} else {
+				w := wit2
+				out = append(out, Finding{Obligation: "C10.once", Kind: "cfg", Msg: "after routing a message the read loop can reach another routing call without reading the next message", Replay: func(dir string) (bool, string) {
+					os.WriteFile(dir+"/witness.txt", []byte(w+"\n"), 0o644)
+					return true, w
+				}})
+			}
+			// every hub call of the handler names the session the connection joined, and the broadcast excepts the connection's own peer id
+			msg, inc3 := checkHubArgs(ld.Prog, repoModule+"/cmd/thruserv.handleWebSocket", ev)
+			if inc3 != "" {
+				fmt.Printf("INCONCLUSIVE property=C10 obligation=C10.args %s\n", inc3)
+			} else if msg == "" {
+				discharged++
+			} else {
+				w := msg
+				out = append(out, Finding{Obligation: "C10.args", Kind: "cfg", Msg: "a hub call of the handler does not use the connection's own session / peer id", Replay: func(dir string) (bool, string) {
+					os.WriteFile(dir+"/witness.txt", []byte(w+"\n"), 0o644)
+					return true, w
+				}})
+			}
+			ev["extra_obligations"] = 3
+			ev["extra_discharged"] = discharged
+			return out
 		},
 	})
 
@@ -214,7 +256,10 @@ func init() {
 			l.Preempt = j.Preempt
 			l.Workers = 16
 			l.ReplayInstr = []SrcInsert{{File: "internal/peers/hub.go", Anchor: "h.mu.Unlock()", Text: "\tvHubYield()", All: true}}
-			return []*Job{j, l}
+			cj := hjp("internal/peers", "C11.closejoin", "H_C11_closejoin", "the only peer leaves while the session is closed and re-opened by a new peer")
+			cj.Threads, cj.CanonicalBlock, cj.TimersNeverFire, cj.Preempt, cj.Workers = true, true, true, j.Preempt, 16
+			cj.ReplayInstr = l.ReplayInstr
+			return []*Job{j, l, cj}
 		},
 	})
 
